@@ -271,3 +271,27 @@ MORE5 = {
 }
 for _k, _v in MORE5.items():
     MORE[_k] = (MORE[_k] + ' ' if _k in MORE else '') + _v
+
+
+# Session 4, round-5 triage
+MORE6 = {
+    'C01': 'R01.17 the reviver does not judge payload; R01.18 differ values never tested by truthiness.',
+    'C02': 'R02.17 as R01.18; R02.18 LCS grid holds plain integers; R02.19 type-strict equality is order-insensitive on objects.',
+    'C03': 'R03.4 also evaluates the generic resolver for strategies a container resolver hands on.',
+    'C04': 'R04.10 clear adds the cleared value when the key is absent from base.',
+    'C05': 'R05.10 both sides are always diffed; R05.11 as R02.19.',
+    'C06': 'R06.1 merge_notebooks returns exactly the applied decisions (C05 R05.8).',
+    'C08': 'R08.12 os.write results are used.',
+    'C09': 'R09.17 the decisions dump keeps ensure_ascii.',
+    'C12': 'R12.10 table values are never mutated in place; R12.11 table readers are not memoised; R12.12 the option path keeps no memo.',
+    'C14': 'R14.16 as R12.11; R14.17 as R12.12.',
+    'C16': 'R16.19 pprint width is constant or clamped.',
+    'C17': 'R17.14 blobs are decoded whole and strictly.',
+    'C18': 'R18.11 driver registration precedes every return after the repository check.',
+    'C19': 'R19.11 entry point by exact lookup; R19.3 treats shallow section layering as a finding.',
+    'C20': 'R20.15 request names are used verbatim; R20.4 the store endpoint has exactly one persistent sink.',
+}
+for _k, _v in MORE6.items():
+    MORE[_k] = (MORE[_k] + ' ' if _k in MORE else '') + _v
+NOTES += (' The loader normalises the tree before any rule runs: functions absent from nbsa/baseline_functions.json (the reference tree) are inlined into their callers '
+          '(nbsa/inline.py), so that "extract helper" refactorings do not move constructs out of the anchored functions; on the reference tree this is the identity.')
